@@ -345,3 +345,44 @@ Proof.
     destruct (IH w1 sw1 HR1) as [HR2 HO2].
     destruct (run w1 h) as [w2 xs]. destruct (srun sw1 h) as [sw2 ys]. simpl in *. subst. auto.
 Qed.
+
+(* ---------- re-entrant consumers: snapshot, then the consumer's calls ---------- *)
+Lemma hstep_refines : forall w sw o, R w sw ->
+  R (fst (hstep w o)) (fst (shstep sw o)) /\ snd (hstep w o) = snd (shstep sw o).
+Proof.
+  intros w sw o HR. destruct o as [o|v ko p d lim script]; cbn [hstep shstep].
+  - destruct (step_refines w sw o HR) as [HR1 HO].
+    destruct (step w o) as [w1 x]. destruct (sstep sw o) as [sw1 y]. simpl in *. subst. auto.
+  - destruct (step_refines w sw (OpKV v (iter_op ko p d lim)) HR) as [HR1 HO].
+    destruct (step w (OpKV v (iter_op ko p d lim))) as [w1 x].
+    destruct (sstep sw (OpKV v (iter_op ko p d lim))) as [sw1 y]. simpl in HR1, HO. subst y.
+    destruct (run_refines (consumer_ops (ndeliv x) script) w1 sw1 HR1) as [HR2 HO2].
+    destruct (run w1 (consumer_ops (ndeliv x) script)) as [w2 xs].
+    destruct (srun sw1 (consumer_ops (ndeliv x) script)) as [sw2 ys]. simpl in *. subst. auto.
+Qed.
+
+Theorem hrun_refines : forall h w sw, R w sw ->
+  R (fst (hrun w h)) (fst (shrun sw h)) /\ snd (hrun w h) = snd (shrun sw h).
+Proof.
+  induction h as [|o h IH]; intros w sw HR; cbn [hrun shrun].
+  - auto.
+  - destruct (hstep_refines w sw o HR) as [HR1 HO].
+    destruct (hstep w o) as [w1 x]. destruct (shstep sw o) as [sw1 y]. simpl in HR1, HO. subst y.
+    destruct (IH w1 sw1 HR1) as [HR2 HO2].
+    destruct (hrun w1 h) as [w2 xs]. destruct (shrun sw1 h) as [sw2 ys]. simpl in *. subst. auto.
+Qed.
+
+(* a history without re-entrant consumers is the old `run` *)
+Lemma hrun_plain : forall h w,
+  hrun w (map HOp h) = (fst (run w h), map (fun x => [x]) (snd (run w h))).
+Proof.
+  induction h as [|o h IH]; intro w; cbn [map hrun run hstep]; auto.
+  rewrite (surjective_pairing (step w o)). rewrite IH. destruct (run (fst (step w o)) h); reflexivity.
+Qed.
+
+Lemma shrun_plain : forall h w,
+  shrun w (map HOp h) = (fst (srun w h), map (fun x => [x]) (snd (srun w h))).
+Proof.
+  induction h as [|o h IH]; intro w; cbn [map shrun srun shstep]; auto.
+  rewrite (surjective_pairing (sstep w o)). rewrite IH. destruct (srun (fst (sstep w o)) h); reflexivity.
+Qed.
